@@ -645,6 +645,29 @@ func main() {
 			}
 		}
 	}
+	// very fine octree lattices (more than 2^9 and 2^10 cells per axis): completeness and volume of a sphere
+	for _, n := range vlib.Pick(c, []int{520}, []int{520, 700, 1030}) {
+		// the sphere fills its own tight box, so the surface reaches the highest lattice coordinates
+		ctr := v3.Vec{}
+		s := boxed{func(p v3.Vec) float64 { return p.Sub(ctr).Length() - 1 }, cube(2, 2, 2)}
+		ts := render.ToTriangles(s, render.NewMarchingCubesOctree(n))
+		h := 2.0 / float64(n)
+		diag := math.Sqrt(3) * h
+		rp := mesh.Check3(ts, 1e-6*h)
+		desc := map[string]any{"shape": "sphere R=1", "meshCells": n, "renderer": "octree"}
+		states++
+		trans += int64(len(ts))
+		if math.Abs(rp.Volume-4.0/3*math.Pi) > 1e-3 {
+			c.Violation("octree|fine-lattice|volume", fmt.Sprintf("sphere R=1 at %d cells: mesh volume %.6f, sphere volume %.6f", n, rp.Volume, 4.0/3*math.Pi), desc)
+		}
+		pts := fib(1, ctr, 2000)
+		var bad atomic.Int64
+		c.ParFor(len(pts), func(pi int) {
+			if d := distToMesh(pts[pi], ts, diag); d > diag*(1+1e-9) && bad.Add(1) == 1 {
+				c.Violation("octree|fine-lattice|resolvable-surface-point-farther-than-a-cell-diagonal-from-mesh", fmt.Sprintf("sphere R=1 at %d cells: surface point %v is %g from the mesh (cell diagonal %g)", n, pts[pi], d, diag), desc)
+			}
+		})
+	}
 	samples = append(samples, map[string]any{"completeness": "402 sphere points incl. the 6 poles / 486 box-face points vs exact point-to-mesh distance", "ladder": ladder})
 	trans += nv + triPts
 	c.Guard("vertices checked", nv > 100000, fmt.Sprint(nv))
